@@ -111,7 +111,9 @@ Tainted(env, n) ==
 
 \* ---------------------------------------------------------------- rendering + verdicts in one walk
 Put(st, line) == [st EXCEPT !.lines = Append(@, line), !.off = @ + Len(line) + 1]
-Pos(C, s, e) == [file |-> C.F.name \o ".abra", start |-> s, end |-> e]
+\* a position: byte range in the file and, equivalently, line / column (1-based) / length
+Pos(C, st, s, e) == [file |-> C.F.name \o ".abra", start |-> s, end |-> e,
+                     line |-> Len(st.lines) + 1, col |-> s - st.off + 1, len |-> e - s]
 Lam(label) == "(z: int) -> println(\"" \o label \o "\")"
 LineNo(st) == ToString(Len(st.lines) + 1)
 Bind(st, n, label) ==
@@ -136,7 +138,7 @@ Walk1(C, s, st) ==
             skip == \/ r.t = "ns"                                   \* calling a namespace: not a resolution matter
                     \/ C.mode.prune /\ r.t \in {"unres", "clash"}
                     \/ C.mode.safe /\ tainted
-            pos == Pos(C, st.off, st.off + Len(s.n))
+            pos == Pos(C, st, st.off, st.off + Len(s.n))
             st1 == Tag(Put(st, s.n \o "(" \o arg \o ")"), r.t)
         IN IF skip THEN st
            ELSE [st1 EXCEPT !.unres = IF r.t = "unres" THEN @ \cup {pos} ELSE @,
@@ -147,8 +149,8 @@ Walk1(C, s, st) ==
         LET r == Resolve(C, st.env, s.p)
             tainted == Tainted(st.env, s.p)
             o1 == st.off + Len(s.p) + 1
-            ppos == Pos(C, st.off, st.off + Len(s.p))
-            fpos == Pos(C, o1, o1 + Len(s.n))
+            ppos == Pos(C, st, st.off, st.off + Len(s.p))
+            fpos == Pos(C, st, o1, o1 + Len(s.n))
             v == CASE r.t = "ns" -> (IF s.n \in DeclNames(FileOf(C.P, r.file)) THEN "q-fn" ELSE "q-unres-field")
                    [] r.t = "unres" -> "q-unres-prefix"
                    [] r.t = "clash" -> "q-clash"
@@ -206,7 +208,7 @@ WalkImports(C, imps, st) ==
   ELSE LET line == ImportLine(imps[1])
            st1 == Put(st, line)
            st2 == IF HasFile(C.P, imps[1].target) THEN st1
-                  ELSE [st1 EXCEPT !.unres = @ \cup {Pos(C, st.off, st.off + Len(line))}, !.tags = Append(@, "missing-file")]
+                  ELSE [st1 EXCEPT !.unres = @ \cup {Pos(C, st, st.off, st.off + Len(line))}, !.tags = Append(@, "missing-file")]
        IN WalkImports(C, Tail(imps), st2)
 WalkDecls(C, ds, st) ==
   IF ds = <<>> THEN st
@@ -254,10 +256,10 @@ Verdict(P, mode) ==
   IN [ok |-> ok,
       files |-> [n \in {P.files[i].name \o ".abra" : i \in DOMAIN P.files} |->
                    E.sts[CHOOSE i \in DOMAIN P.files : P.files[i].name \o ".abra" = n].lines],
-      \* a program with diagnostics is observed through the editor analysis (harness mode "lsp": the list of
-      \* diagnostics with message, file and byte range), a clean one is compiled and run
-      mode |-> IF ok THEN "run" ELSE "lsp",
-      expect |-> IF ok THEN [compile |-> "ok", status |-> "done", out |-> E.sts[1].out] ELSE [lsp |-> "ok"],
+      \* a program with diagnostics is observed through the checker (harness mode "check": the rendered diagnostics,
+      \* each with message, file:line:column and underlined length), a clean one is compiled and run
+      mode |-> IF ok THEN "run" ELSE "check",
+      expect |-> IF ok THEN [compile |-> "ok", status |-> "done", out |-> E.sts[1].out] ELSE [check |-> "diag"],
       expect_diags |-> [unresolved |-> unres, clash |-> {ClashMsg(n) : n \in clashes}],
       ignore |-> undet,
       tags |-> [i \in DOMAIN P.files |-> IF i \in L THEN E.sts[i].tags ELSE <<>>],
